@@ -24,7 +24,7 @@ MECHANISMS = ["jaxley.utils.cell_utils:_radius_generating_fn", "jaxley.utils.cel
               "jaxley.modules.base:Module.__getattr__", "jaxley.io.swc:read_swc"]
 MECHANISMS_REQUIRED = ["jaxley.modules.base:Module.__getattr__"]
 REQUIRED = {"quick": {"tables_equal": 40, "sim_equal": 40, "aliasing": 40, "independence": 20, "grad_equal": 10},
-            "thorough": {"tables_equal": 390, "sim_equal": 390, "aliasing": 360, "independence": 449, "grad_equal": 180}}
+            "thorough": {"tables_equal": 390, "sim_equal": 390, "aliasing": 360, "independence": 1169, "grad_equal": 180}}
 WALL_BUDGET = {"quick": 1500, "thorough": 4 * 3600}
 
 
